@@ -137,6 +137,11 @@ def scenario(rng, drv, k, tier):
         if leave is not None and leave > join:
             subs.append([leave, "leave", name])
         subinfo.append([name, join, leave if leave is not None and leave > join else 1e6])
+    if drv in ("tridonic", "hasseb") and k % 4 == 1 and nsub >= 1:
+        # one more subscriber, registered before or between the others, whose callback raises on every report
+        at = rng.choice([0.0, 0.0, round(rng.uniform(0, tend) // 0.001 * 0.001 + 0.000411, 6)])
+        subs.append([at, "join", "X9"])
+        subinfo.append(["X9", at, 1e6])
     callers = []
     if drv == "tridonic" and rng.random() < 0.5:
         callers.append({"name": "A", "mode": "send", "unit": [[rng.choice(["q16", "cfg", "dapc", "qdt6"]), 20]],
